@@ -797,3 +797,41 @@ pub fn chain_cases() -> Vec<RsCase> {
     }
     out
 }
+
+// ------------------------------------------------------------------ C09: every operator at its extremes, as one rule among others
+
+/// the extremes of every type (a subset of the boundary pool, so the model's answer for every cell is the one C02 checks)
+pub fn extreme_pool() -> Vec<Value> {
+    use rust_decimal::prelude::ToPrimitive;
+    let keep = |v: &Value| -> bool {
+        match v {
+            Value::Int(i) => [0, 1, -1, 7].contains(i) || i.unsigned_abs() >= 1u128 << 63,
+            Value::Float(f) => !f.is_finite() || [0.0, 1.5, f64::MAX, 5e-324, 1.7014118346046925e38].contains(f),
+            Value::Decimal(d) => d.mantissa().unsigned_abs() >= 1u128 << 90 || d.is_zero() || d.to_f64() == Some(1.5) || d.scale() == 28,
+            Value::String(s) => ["", "a", "1", "170141183460469231731687303715884105728", "1e5"].contains(&s.as_str()) || s.len() == 300,
+            Value::Bool(_) | Value::None => true,
+            Value::DateTime(t) => t.timestamp() == 0 || t.timestamp().abs() > 8_000_000_000_000,
+            Value::Duration(d) => d.num_seconds() == 0 || d.num_seconds() == 1 || d.num_seconds().abs() >= 9223372036854775,
+            Value::Vec(v) => v.len() <= 1,
+            Value::Map(m) => m.len() <= 1,
+        }
+    };
+    crate::pool::boundary_pool(false).into_iter().filter(keep).collect()
+}
+
+/// every operator cell over the extremes of every type (all ordered pairs, mixed types included) as a rule of a ruleset of 40
+/// such rules between two succeeding ones: a cell that takes the whole evaluation down (instead of yielding its own error
+/// outcome) takes the other 41 outcomes with it
+pub fn cells_as_rules_cases() -> Vec<RsCase> {
+    let env = rules_env();
+    let facts = map(&[("x", Value::Int(5))]);
+    let cells = crate::cells::cells_over(&extreme_pool());
+    let mut out = vec![];
+    for chunk in cells.chunks(40) {
+        let mut rules: Vec<Expr> = vec![call("g", reff("x"))];
+        rules.extend(chunk.iter().map(|c| c.expr.clone()));
+        rules.push(mk_bin("add", reff("x"), lit(Value::Int(1))));
+        out.push(RsCase { tag: format!("cells-as-rules {}", chunk[0].op), rules, facts: facts.clone(), env: env.clone(), evals: 1 });
+    }
+    out
+}
